@@ -42,6 +42,10 @@ pub enum Call {
     IncB,
     /// reset() of a (possibly finished) bar
     Reset,
+    /// a wrapped iterator over two items, driven to exhaustion
+    Iter2,
+    /// a wrapped reader: one read of three bytes
+    Read3,
     /// liveness of the most recently enabled steady ticker: yield until a steady-tick thread has
     /// redrawn the bar since that enable call started
     AwaitTick,
@@ -56,6 +60,8 @@ pub enum Share {
 
 #[derive(Clone, Debug)]
 pub struct Program {
+    /// bar a has no length (finish leaves the position where it is)
+    pub no_len: bool,
     pub family: &'static str,
     pub multi: bool,
     pub ticker: bool,
@@ -65,10 +71,10 @@ pub struct Program {
 
 impl Program {
     pub fn describe(&self) -> String {
-        format!("{}{}{} {:?}", if self.multi { "multi " } else { "single " }, if self.ticker { "ticker-on " } else { "" }, if self.share == Share::ArcRef { "shared-by-reference" } else { "clones" }, self.threads)
+        format!("{}{}{}{} {:?}", if self.no_len { "no-length " } else { "" }, if self.multi { "multi " } else { "single " }, if self.ticker { "ticker-on " } else { "" }, if self.share == Share::ArcRef { "shared-by-reference" } else { "clones" }, self.threads)
     }
     pub fn history(&self) -> Vec<String> {
-        let mut v = vec![format!("{} bar, steady ticker {}, handles shared as {:?}", if self.multi { "member of a 2-bar MultiProgress" } else { "standalone" }, if self.ticker { "enabled before the threads start" } else { "off" }, self.share)];
+        let mut v = vec![format!("{}{} bar, steady ticker {}, handles shared as {:?}", if self.no_len { "length-less " } else { "" }, if self.multi { "member of a 2-bar MultiProgress" } else { "standalone" }, if self.ticker { "enabled before the threads start" } else { "off" }, self.share)];
         for (i, t) in self.threads.iter().enumerate() {
             v.push(format!("T{}: {:?}", i + 1, t));
         }
@@ -112,7 +118,7 @@ pub fn programs_for(family: &str, tier: &str) -> Vec<Program> {
                     // all unordered pairs of single calls
                     for i in 0..alpha.len() {
                         for j in i..alpha.len() {
-                            v.push(Program { family: "C08", multi, ticker, share: Share::Clone, threads: vec![vec![alpha[i]], vec![alpha[j]]] });
+                            v.push(Program { no_len: false, family: "C08", multi, ticker, share: Share::Clone, threads: vec![vec![alpha[i]], vec![alpha[j]]] });
                         }
                     }
                     if thorough {
@@ -121,7 +127,7 @@ pub fn programs_for(family: &str, tier: &str) -> Vec<Program> {
                         for &a in &two {
                             for &b in &two {
                                 for &c in &alpha {
-                                    v.push(Program { family: "C08", multi, ticker, share: Share::Clone, threads: vec![vec![a, b], vec![c]] });
+                                    v.push(Program { no_len: false, family: "C08", multi, ticker, share: Share::Clone, threads: vec![vec![a, b], vec![c]] });
                                 }
                             }
                         }
@@ -130,8 +136,8 @@ pub fn programs_for(family: &str, tier: &str) -> Vec<Program> {
             }
             // a tick that takes longer than the tick interval (clock advances on every reading)
             for &c in &[Call::Disable, Call::Enable, Call::Finish, Call::DropOwn, Call::Tick, Call::Update] {
-                v.push(Program { family: "C08", multi: false, ticker: false, share: Share::Clone, threads: vec![vec![Call::EnableShort], vec![c]] });
-                v.push(Program { family: "C08", multi: false, ticker: false, share: Share::Clone, threads: vec![vec![Call::EnableShort, c]] });
+                v.push(Program { no_len: false, family: "C08", multi: false, ticker: false, share: Share::Clone, threads: vec![vec![Call::EnableShort], vec![c]] });
+                v.push(Program { no_len: false, family: "C08", multi: false, ticker: false, share: Share::Clone, threads: vec![vec![Call::EnableShort, c]] });
             }
             // three threads, calls that touch the ticker slot or join
             let slot: Vec<Call> = vec![Call::Update, Call::Tick, Call::Enable, Call::Disable, Call::Finish, Call::DropOwn];
@@ -140,29 +146,29 @@ pub fn programs_for(family: &str, tier: &str) -> Vec<Program> {
                     for i in 0..slot.len() {
                         for j in i..slot.len() {
                             for k in j..slot.len() {
-                                v.push(Program { family: "C08", multi: false, ticker, share: Share::Clone, threads: vec![vec![slot[i]], vec![slot[j]], vec![slot[k]]] });
+                                v.push(Program { no_len: false, family: "C08", multi: false, ticker, share: Share::Clone, threads: vec![vec![slot[i]], vec![slot[j]], vec![slot[k]]] });
                             }
                         }
                     }
                 }
             } else {
                 for &(a, b, c) in &[(Call::Update, Call::Disable, Call::Tick), (Call::Enable, Call::Disable, Call::Finish), (Call::Enable, Call::Enable, Call::DropOwn), (Call::Update, Call::Enable, Call::Finish)] {
-                    v.push(Program { family: "C08", multi: false, ticker: true, share: Share::Clone, threads: vec![vec![a], vec![b], vec![c]] });
+                    v.push(Program { no_len: false, family: "C08", multi: false, ticker: true, share: Share::Clone, threads: vec![vec![a], vec![b], vec![c]] });
                 }
             }
             // liveness of a (re-)enabled ticker after histories that let an earlier ticker thread exit on
             // its own: the bar must be redrawn without manual ticks after the last enable call
             for en in [Call::Enable, Call::EnableShort] {
                 for hist in [vec![en, Call::AwaitTick], vec![en, Call::Finish, Call::Reset, en, Call::AwaitTick], vec![en, Call::Disable, en, Call::AwaitTick], vec![en, Call::Abandon, Call::Reset, en, Call::AwaitTick], vec![en, en, Call::AwaitTick], vec![en, Call::Reset, en, Call::AwaitTick]] {
-                    v.push(Program { family: "C08", multi: false, ticker: false, share: Share::Clone, threads: vec![hist.clone()] });
+                    v.push(Program { no_len: false, family: "C08", multi: false, ticker: false, share: Share::Clone, threads: vec![hist.clone()] });
                     if en == Call::Enable {
-                        v.push(Program { family: "C08", multi: true, ticker: false, share: Share::Clone, threads: vec![hist] });
+                        v.push(Program { no_len: false, family: "C08", multi: true, ticker: false, share: Share::Clone, threads: vec![hist] });
                     }
                 }
-                v.push(Program { family: "C08", multi: false, ticker: true, share: Share::Clone, threads: vec![vec![Call::Finish, Call::Reset, en, Call::AwaitTick]] });
+                v.push(Program { no_len: false, family: "C08", multi: false, ticker: true, share: Share::Clone, threads: vec![vec![Call::Finish, Call::Reset, en, Call::AwaitTick]] });
                 // (finish and reset stay in one thread: the harness' finish_returned flag is only
                 // meaningful when reset() is ordered after finish() by the program itself)
-                v.push(Program { family: "C08", multi: false, ticker: true, share: Share::Clone, threads: vec![vec![Call::Tick], vec![Call::Finish, Call::Reset, en, Call::AwaitTick]] });
+                v.push(Program { no_len: false, family: "C08", multi: false, ticker: true, share: Share::Clone, threads: vec![vec![Call::Tick], vec![Call::Finish, Call::Reset, en, Call::AwaitTick]] });
             }
         }
         "L07" => {
@@ -170,9 +176,9 @@ pub fn programs_for(family: &str, tier: &str) -> Vec<Program> {
             for share in [Share::Clone, Share::ArcRef] {
                 for i in 0..calls.len() {
                     for j in i..calls.len() {
-                        v.push(Program { family: "L07", multi: false, ticker: false, share, threads: vec![vec![calls[i]], vec![calls[j]]] });
+                        v.push(Program { no_len: false, family: "L07", multi: false, ticker: false, share, threads: vec![vec![calls[i]], vec![calls[j]]] });
                         if thorough || (i == 0 && j == 2) || (i == 1 && j == 3) {
-                            v.push(Program { family: "L07", multi: false, ticker: false, share, threads: vec![vec![calls[i], calls[j]], vec![calls[j], calls[i]]] });
+                            v.push(Program { no_len: false, family: "L07", multi: false, ticker: false, share, threads: vec![vec![calls[i], calls[j]], vec![calls[j], calls[i]]] });
                         }
                     }
                 }
@@ -181,34 +187,68 @@ pub fn programs_for(family: &str, tier: &str) -> Vec<Program> {
                     if !thorough && n3 > 0 {
                         continue;
                     }
-                    v.push(Program { family: "L07", multi: false, ticker: false, share, threads: vec![vec![a], vec![b], vec![c]] });
+                    v.push(Program { no_len: false, family: "L07", multi: false, ticker: false, share, threads: vec![vec![a], vec![b], vec![c]] });
                     if thorough {
-                        v.push(Program { family: "L07", multi: false, ticker: false, share, threads: vec![vec![a, b], vec![b, c], vec![c, a]] });
+                        v.push(Program { no_len: false, family: "L07", multi: false, ticker: false, share, threads: vec![vec![a, b], vec![b, c], vec![c, a]] });
+                    }
+                }
+            }
+            // a bar without a length: finish()/abandon() keep the position, so increments racing with
+            // them must survive exactly like increments racing with each other
+            for share in [Share::Clone, Share::ArcRef] {
+                for fin in [Call::Finish, Call::Abandon] {
+                    v.push(Program { no_len: true, family: "L07", multi: false, ticker: false, share, threads: vec![vec![fin], vec![Call::Inc(1)]] });
+                    v.push(Program { no_len: true, family: "L07", multi: false, ticker: false, share, threads: vec![vec![fin], vec![Call::Inc(1), Call::Dec(3)]] });
+                    if thorough {
+                        v.push(Program { no_len: true, family: "L07", multi: false, ticker: false, share, threads: vec![vec![fin], vec![Call::Inc(1)], vec![Call::Inc(4)]] });
+                        v.push(Program { no_len: true, family: "L07", multi: true, ticker: false, share, threads: vec![vec![fin], vec![Call::Inc(1)]] });
                     }
                 }
             }
             // increments while a ticker is installed and while the bar sits in a MultiProgress
-            v.push(Program { family: "L07", multi: true, ticker: false, share: Share::Clone, threads: vec![vec![Call::Inc(1), Call::Inc(2)], vec![Call::Inc(4)]] });
-            v.push(Program { family: "L07", multi: false, ticker: true, share: Share::Clone, threads: vec![vec![Call::Inc(1)], vec![Call::Inc(4), Call::Dec(2)]] });
+            v.push(Program { no_len: false, family: "L07", multi: true, ticker: false, share: Share::Clone, threads: vec![vec![Call::Inc(1), Call::Inc(2)], vec![Call::Inc(4)]] });
+            v.push(Program { no_len: false, family: "L07", multi: false, ticker: true, share: Share::Clone, threads: vec![vec![Call::Inc(1)], vec![Call::Inc(4), Call::Dec(2)]] });
+        }
+        "L17" => {
+            // adaptors on clones of one length-less bar (exhausting an iterator finishes the bar, which
+            // leaves the position of a length-less bar alone): every transferred item/byte is counted once
+            let calls: Vec<Call> = vec![Call::Iter2, Call::Read3, Call::Inc(1)];
+            for share in [Share::Clone, Share::ArcRef] {
+                for i in 0..calls.len() {
+                    for j in i..calls.len() {
+                        if calls[i] == Call::Inc(1) && calls[j] == Call::Inc(1) {
+                            continue;
+                        }
+                        v.push(Program { no_len: true, family: "L07", multi: false, ticker: false, share, threads: vec![vec![calls[i]], vec![calls[j]]] });
+                        if thorough {
+                            v.push(Program { no_len: true, family: "L07", multi: false, ticker: false, share, threads: vec![vec![calls[i], calls[j]], vec![calls[j]]] });
+                        }
+                    }
+                }
+                if thorough {
+                    v.push(Program { no_len: true, family: "L07", multi: false, ticker: false, share, threads: vec![vec![Call::Iter2], vec![Call::Read3], vec![Call::Iter2]] });
+                }
+            }
+            v.push(Program { no_len: true, family: "L07", multi: true, ticker: false, share: Share::Clone, threads: vec![vec![Call::Iter2], vec![Call::Read3]] });
         }
         "L02" => {
             let calls: Vec<Call> = vec![Call::Inc(1), Call::Tick, Call::Msg, Call::Finish, Call::DropOwn, Call::MpPrintln, Call::MpRemove, Call::MpAdd, Call::MpClear, Call::IncB, Call::TickB];
             for i in 0..calls.len() {
                 for j in i..calls.len() {
-                    v.push(Program { family: "L02", multi: true, ticker: false, share: Share::Clone, threads: vec![vec![calls[i]], vec![calls[j]]] });
+                    v.push(Program { no_len: false, family: "L02", multi: true, ticker: false, share: Share::Clone, threads: vec![vec![calls[i]], vec![calls[j]]] });
                 }
             }
             // suspending the whole MultiProgress while another thread updates a member
             for &o in &[Call::Tick, Call::Inc(1), Call::IncB, Call::Finish, Call::MpPrintln] {
-                v.push(Program { family: "L02", multi: true, ticker: false, share: Share::Clone, threads: vec![vec![Call::MpSuspendWrite], vec![o]] });
-                v.push(Program { family: "L02", multi: true, ticker: false, share: Share::Clone, threads: vec![vec![Call::SuspendWrite], vec![o]] });
+                v.push(Program { no_len: false, family: "L02", multi: true, ticker: false, share: Share::Clone, threads: vec![vec![Call::MpSuspendWrite], vec![o]] });
+                v.push(Program { no_len: false, family: "L02", multi: true, ticker: false, share: Share::Clone, threads: vec![vec![Call::SuspendWrite], vec![o]] });
             }
             let two: Vec<Call> = vec![Call::Inc(1), Call::IncB, Call::Finish, Call::MpPrintln, Call::DropOwn];
             for &a in &two {
                 for &b in &two {
                     for &c in &two {
                         if thorough || (a != b) {
-                            v.push(Program { family: "L02", multi: true, ticker: false, share: Share::Clone, threads: vec![vec![a, b], vec![c]] });
+                            v.push(Program { no_len: false, family: "L02", multi: true, ticker: false, share: Share::Clone, threads: vec![vec![a, b], vec![c]] });
                         }
                     }
                 }
@@ -222,7 +262,7 @@ pub fn programs_for(family: &str, tier: &str) -> Vec<Program> {
                         let (a, b, c) = (three[i], three[j], three[k]);
                         let quick_pick = i == 0 && j == 1 && k >= 2;
                         if thorough || quick_pick {
-                            v.push(Program { family: "L02", multi: true, ticker: false, share: Share::Clone, threads: vec![vec![a], vec![b], vec![c]] });
+                            v.push(Program { no_len: false, family: "L02", multi: true, ticker: false, share: Share::Clone, threads: vec![vec![a], vec![b], vec![c]] });
                         }
                     }
                 }
@@ -244,9 +284,9 @@ pub fn programs_for(family: &str, tier: &str) -> Vec<Program> {
                             if o == Call::TickB && !multi {
                                 continue;
                             }
-                            v.push(Program { family: "L03", multi, ticker, share: Share::Clone, threads: vec![vec![sus], vec![o]] });
+                            v.push(Program { no_len: false, family: "L03", multi, ticker, share: Share::Clone, threads: vec![vec![sus], vec![o]] });
                             if thorough {
-                                v.push(Program { family: "L03", multi, ticker, share: Share::Clone, threads: vec![vec![sus, Call::Tick], vec![o, o]] });
+                                v.push(Program { no_len: false, family: "L03", multi, ticker, share: Share::Clone, threads: vec![vec![sus, Call::Tick], vec![o, o]] });
                             }
                         }
                     }
@@ -350,6 +390,14 @@ fn do_call(c: Call, pb: &ProgressBar, w: &World, sh: &Shared) {
             sh.enable_mark.store(sh.ticker_ticks.load(Ordering::SeqCst), Ordering::SeqCst);
             pb.enable_steady_tick(Duration::from_millis(1))
         }
+        Call::Iter2 => {
+            for _ in pb.wrap_iter(0..2) {}
+        }
+        Call::Read3 => {
+            use std::io::Read;
+            let mut buf = [0u8; 3];
+            let _ = pb.wrap_read(&[1u8, 2, 3][..]).read(&mut buf);
+        }
         Call::Reset => {
             // a steady-tick thread never ticks a finished bar (it checks under the state lock), so a
             // tick seen from here on happens after reset() took effect
@@ -452,7 +500,8 @@ pub fn execute(p: &Program, timeouts: usize, obs: &Obs) {
     let has_enable_call = p.uses_ticker();
     let spy = Spy::new(30, 12, false);
     spy.st().frames = Some(Vec::new());
-    let mk = |name: &str, sh: &Arc<Shared>| ProgressBar::with_draw_target(Some(9), ProgressDrawTarget::hidden()).with_style(style(sh, !has_enable_call)).with_prefix(name.to_string()).with_finish(ProgressFinish::AndLeave);
+    let len_a = if p.no_len { None } else { Some(9) };
+    let mk = |name: &str, sh: &Arc<Shared>| ProgressBar::with_draw_target(len_a, ProgressDrawTarget::hidden()).with_style(style(sh, !has_enable_call)).with_prefix(name.to_string()).with_finish(ProgressFinish::AndLeave);
     let world = if p.multi {
         let mp = MultiProgress::with_draw_target(ProgressDrawTarget::term_like(spy.boxed()));
         let a = mp.add(mk("a", &sh));
@@ -461,7 +510,7 @@ pub fn execute(p: &Program, timeouts: usize, obs: &Obs) {
         b.tick();
         World { spy: spy.clone(), mp: Some(mp), a: Arc::new(a), b: Some(b) }
     } else {
-        let a = ProgressBar::with_draw_target(Some(9), ProgressDrawTarget::term_like(spy.boxed())).with_style(style(&sh, !has_enable_call)).with_prefix("a").with_finish(ProgressFinish::AndLeave);
+        let a = ProgressBar::with_draw_target(len_a, ProgressDrawTarget::term_like(spy.boxed())).with_style(style(&sh, !has_enable_call)).with_prefix("a").with_finish(ProgressFinish::AndLeave);
         a.tick();
         World { spy: spy.clone(), mp: None, a: Arc::new(a), b: None }
     };
@@ -527,6 +576,8 @@ pub fn execute(p: &Program, timeouts: usize, obs: &Obs) {
                 match c {
                     Call::Inc(x) => want = want.wrapping_add(*x),
                     Call::Dec(x) => want = want.wrapping_sub(*x),
+                    Call::Iter2 => want = want.wrapping_add(2),
+                    Call::Read3 => want = want.wrapping_add(3),
                     _ => {}
                 }
             }
